@@ -116,6 +116,7 @@ type real struct {
 	subs        map[string]*realSub
 	subOrder    []string
 	pids        map[string]*pidInfo // PullID subscriptions, by name
+	panicked    string              // construction panicked (Cfg.Res with an initial record id given twice)
 	arena                           // how option slices are handed to the calls (common_arena.go)
 }
 
@@ -287,50 +288,147 @@ func (r *real) deliveries(sends int) string {
 	return strings.Join(parts, " ")
 }
 
+// eqvOption: the resource-level equivalence under its name. It is consulted by Pull only; C01 runs no
+// subscriber next to a resource that has one (except the always-false "never"), so its decisions are
+// logged only as long as there is room (C04 reads them).
+func (r *real) eqvOption(name string) resource.Option {
+	if name == "nodup" {
+		return resource.WithNoDuplicates()
+	}
+	if r.cmp == nil {
+		r.cmp = &cmpLog{ch: make(chan bool, 1024)}
+	}
+	f := namedEqv(name)
+	return resource.WithEquivalence(resource.ComparerFunc(func(x, y proto.Message) bool {
+		b := f(x, y)
+		select {
+		case r.cmp.ch <- b:
+		default:
+		}
+		return b
+	}))
+}
+
+// zeroFor: the zero message of the type whose paths the mask letters name
+func zeroFor(mask string) proto.Message {
+	for _, l := range maskLetters(mask) {
+		if l == "p" || l == "t" || l == "tp" {
+			return &P{}
+		}
+	}
+	return &T{}
+}
+
+// resOption translates one token of an ordered resource option list (Cfg.Res).
+func (r *real) resOption(t string, rng []byte) resource.Option {
+	k, v := t, ""
+	if i := strings.IndexByte(t, ':'); i >= 0 {
+		k, v = t[:i], t[i+1:]
+	}
+	switch k {
+	case "W":
+		if v == "nil" {
+			return resource.WithWritableFields(nil)
+		}
+		return resource.WithWritableFields(parseMask(v))
+	case "Wp":
+		return resource.WithWritablePaths(zeroFor(v), parseMask(v).Paths...)
+	case "icpt":
+		if v == "nil" {
+			return resource.WithIDInterceptor(nil)
+		}
+		return resource.WithIDInterceptor(namedIcpt(v))
+	case "init":
+		if v == "nil" {
+			return resource.WithInitialValue(nil)
+		}
+		return resource.WithInitialValue(parseMsg(v))
+	case "rec":
+		p := strings.SplitN(v, "~", 2)
+		return resource.WithInitialRecord(p[0], parseMsg(p[1]))
+	case "eqv":
+		return r.eqvOption(v)
+	case "nop":
+		return resource.EmptyOption{}
+	case "clk":
+		return resource.WithClock(r.clk)
+	case "rng":
+		return resource.WithRNG(&scriptRNG{b: rng})
+	}
+	panic("unknown resource option " + t)
+}
+
+// probed: can the always-on probe see every bus event (no equivalence that could suppress one)
+func probed(cfg Cfg) bool { return cfg.Eqv == "" || cfg.Eqv == "never" }
+
 func newReal(cfg Cfg, probe bool) *real {
 	r := &real{cfg: cfg, clk: &testClock{step: cfg.Tick, frozen: true}, subs: map[string]*realSub{}}
-	opts := []resource.Option{resource.WithClock(r.clk)}
 	rng := make([]byte, len(cfg.Rng))
 	for i, x := range cfg.Rng {
 		rng[i] = byte(x)
 	}
-	opts = append(opts, resource.WithRNG(&scriptRNG{b: rng}))
-	if cfg.W != nil {
-		opts = append(opts, resource.WithWritableFields(parseMask(*cfg.W)))
-	}
-	if cfg.Icpt != "" {
-		opts = append(opts, resource.WithIDInterceptor(namedIcpt(cfg.Icpt)))
-	}
-	if cfg.Eqv != "" {
-		r.cmp = &cmpLog{ch: make(chan bool, 1024)}
-		f := namedEqv(cfg.Eqv)
-		opts = append(opts, resource.WithEquivalence(resource.ComparerFunc(func(x, y proto.Message) bool {
-			b := f(x, y)
-			r.cmp.ch <- b
-			return b
-		})))
-	}
-	if cfg.Kind == "val" {
-		if len(cfg.Init) > 0 && cfg.Init[0] != "nil" {
-			opts = append(opts, resource.WithInitialValue(parseMsg(cfg.Init[0])))
+	var opts []resource.Option
+	if len(cfg.Res) > 0 {
+		// the options exactly as listed; the clock and the rng go where the list says, else in front
+		hasClk, hasRng := false, false
+		for _, t := range cfg.Res {
+			hasClk, hasRng = hasClk || t == "clk", hasRng || t == "rng"
 		}
-		r.val = resource.NewValue(opts...)
-	} else {
-		seen := map[string]bool{}
-		for _, rec := range cfg.Init {
-			p := strings.SplitN(rec, "~", 2)
-			if seen[p[0]] {
-				continue // WithInitialRecord panics on a duplicate id; the model keeps the last one, scripts avoid it
+		if !hasClk {
+			opts = append(opts, resource.WithClock(r.clk))
+		}
+		if !hasRng {
+			opts = append(opts, resource.WithRNG(&scriptRNG{b: rng}))
+		}
+		if p, msg := lib.Catch(func() {
+			for _, t := range cfg.Res {
+				opts = append(opts, r.resOption(t, rng))
 			}
-			seen[p[0]] = true
-			opts = append(opts, resource.WithInitialRecord(p[0], parseMsg(p[1])))
+			if cfg.Kind == "val" {
+				r.val = resource.NewValue(opts...)
+			} else {
+				r.coll = resource.NewCollection(opts...)
+			}
+		}); p {
+			r.panicked = msg
+			if r.panicked == "" {
+				r.panicked = "panic"
+			}
+			return r
 		}
-		r.coll = resource.NewCollection(opts...)
+	} else {
+		opts = append(opts, resource.WithClock(r.clk), resource.WithRNG(&scriptRNG{b: rng}))
+		if cfg.W != nil {
+			opts = append(opts, resource.WithWritableFields(parseMask(*cfg.W)))
+		}
+		if cfg.Icpt != "" {
+			opts = append(opts, resource.WithIDInterceptor(namedIcpt(cfg.Icpt)))
+		}
+		if cfg.Eqv != "" {
+			opts = append(opts, r.eqvOption(cfg.Eqv))
+		}
+		if cfg.Kind == "val" {
+			if len(cfg.Init) > 0 && cfg.Init[0] != "nil" {
+				opts = append(opts, resource.WithInitialValue(parseMsg(cfg.Init[0])))
+			}
+			r.val = resource.NewValue(opts...)
+		} else {
+			seen := map[string]bool{}
+			for _, rec := range cfg.Init {
+				p := strings.SplitN(rec, "~", 2)
+				if seen[p[0]] {
+					continue // WithInitialRecord panics on a duplicate id; the model keeps the last one, scripts avoid it
+				}
+				seen[p[0]] = true
+				opts = append(opts, resource.WithInitialRecord(p[0], parseMsg(p[1])))
+			}
+			r.coll = resource.NewCollection(opts...)
+		}
 	}
 	// construction read the (frozen) clock at tick 0; the model starts its counter at `tick`
 	r.clk.frozen = false
 	r.clk.n = cfg.Tick
-	if probe && cfg.Eqv == "" {
+	if probe && probed(cfg) {
 		ctx, cancel := context.WithCancel(context.Background())
 		r.probeCancel = cancel
 		if r.val != nil {
@@ -497,6 +595,17 @@ func writeOption(t string, cur func() *callbacks) resource.WriteOption {
 		return resource.WithGenIDIfAbsent()
 	case "icb":
 		return resource.WithIDCallback(func(id string) { c := cur(); c.ids = append(c.ids, id) })
+	// the With…Paths spellings and the empty option
+	case "ump":
+		return resource.WithUpdatePaths(parseMask(v).Paths...)
+	case "mump":
+		return resource.WithMoreUpdatePaths(parseMask(v).Paths...)
+	case "rsp":
+		return resource.WithResetPaths(parseMask(v).Paths...)
+	case "mwp":
+		return resource.WithMoreWritablePaths(parseMask(v).Paths...)
+	case "nop":
+		return resource.EmptyWriteOption{}
 	}
 	panic("unknown write option " + t)
 }
@@ -535,6 +644,10 @@ func readOption(t string) (resource.ReadOption, bool) {
 		return resource.WithBackpressure(true), true
 	case "bp0":
 		return resource.WithBackpressure(false), true
+	case "rmp":
+		return resource.WithReadPaths(zeroFor(v), parseMask(v).Paths...), true
+	case "nop":
+		return resource.EmptyReadOption{}, true
 	case "name", "id":
 		return nil, false
 	}
@@ -624,10 +737,16 @@ loop:
 			}
 		}
 	}
-	if r.val != nil {
-		return fmt.Sprintf("val=%s err=%s ev=%s", showMsg(val), codeName(err), showList(evs)), sends
+	evText := showList(evs)
+	if !probed(r.cfg) {
+		// an equivalence stands between the bus and every subscriber: only the NUMBER of bus events the call
+		// caused is observable (yield point bus.send.afterSnapshot)
+		evText = fmt.Sprintf("#%d", sends)
 	}
-	return fmt.Sprintf("val=%s err=%s ev=%s ids=%s created=%d", showMsg(val), codeName(err), showList(evs),
+	if r.val != nil {
+		return fmt.Sprintf("val=%s err=%s ev=%s", showMsg(val), codeName(err), evText), sends
+	}
+	return fmt.Sprintf("val=%s err=%s ev=%s ids=%s created=%d", showMsg(val), codeName(err), evText,
 		showList(cb.ids), cb.created), sends
 }
 
